@@ -12,6 +12,7 @@ import (
 	"reflect"
 	"sort"
 	"strings"
+	"unicode/utf8"
 
 	"github.com/CrowdStrike/csproto"
 	gogojsonpb "github.com/gogo/protobuf/jsonpb"
@@ -262,6 +263,10 @@ func zeroValuesOK(md protoreflect.MessageDescriptor, v interface{}) (bool, strin
 // compare: no NaN (NaN != NaN under every runtime's Equal), timestamps and durations in their valid ranges.
 func sanitizeForJSON(m protoreflect.Message) {
 	fixScalar := func(fd protoreflect.FieldDescriptor, v protoreflect.Value) protoreflect.Value {
+		if fd.Kind() == protoreflect.StringKind && !utf8.ValidString(v.String()) {
+			// JSON is UTF-8 text: a (proto2) string that is not valid UTF-8 has no JSON form that decodes back to it
+			v = protoreflect.ValueOfString(strings.ToValidUTF8(v.String(), "é"))
+		}
 		if fd.Kind() == protoreflect.StringKind && len(v.String())%5 == 3 {
 			// text that looks like JSON syntax and like the marshalers' own layout (spaces after a colon,
 			// line breaks followed by indentation, quotes, braces): it must come back unchanged
